@@ -74,11 +74,18 @@ fn run_single<T: MomT>(xs_l: &[i64], spec: &SlotSpec, cx: &Ctx, e: &Embedding, w
         return; // the exact evaluator carries this order only for shorter streams
     }
     rep.replays += 1;
-    let mut t = T::new();
-    for &v in xs_l {
-        t.add(e.x(v));
+    let built = std::panic::catch_unwind(|| {
+        let mut t = T::new();
+        for &v in xs_l {
+            t.add(e.x(v));
+        }
+        t
+    });
+    match built {
+        Ok(t) => check_final::<T>(&t, spec, cx, e, true, want, rep, label, 0, false),
+        Err(_) => rep.violation(json!({"property": want.prop, "family": "long", "type": T::NAME, "embedding": e.name, "history": label,
+            "accessor": "panic", "what": "add panicked", "signature": format!("{}|{}|panic", want.prop, T::NAME)})),
     }
-    check_final::<T>(&t, spec, cx, e, true, want, rep, label, 0, false);
 }
 
 fn run_merged<T: MomT>(xs_l: &[i64], spec: &SlotSpec, cx: &Ctx, e: &Embedding, want: &Want, rep: &mut Report, label: &Value, rng: &mut Xoshiro256PlusPlus) {
@@ -119,6 +126,30 @@ fn run_merged<T: MomT>(xs_l: &[i64], spec: &SlotSpec, cx: &Ctx, e: &Embedding, w
     check_final::<T>(&parts[0], spec, cx, e, false, want, rep, label, 0, false);
 }
 
+fn two_blocks<T: MomT>(spec: &SlotSpec, cx: &Ctx, ka: usize, e: &Embedding, want: &Want, rep: &mut Report, label: &Value) {
+    if !want.types.iter().any(|t| t == T::NAME) {
+        return;
+    }
+    for reverse in [false, true] {
+        rep.replays += 1;
+        let mut a = T::new();
+        let mut b = T::new();
+        for &v in &spec.data[..ka] {
+            a.add(e.x(v));
+        }
+        for &v in &spec.data[ka..] {
+            b.add(e.x(v));
+        }
+        if reverse {
+            b.merge(&a);
+            check_final::<T>(&b, spec, cx, e, false, want, rep, label, 0, false);
+        } else {
+            a.merge(&b);
+            check_final::<T>(&a, spec, cx, e, false, want, rep, label, 0, false);
+        }
+    }
+}
+
 pub fn direct_long(prop: &str, seed: u64, max_n: usize, types: Vec<String>, emb_names: Vec<String>, rep: &mut Report) {
     let mut rng = Xoshiro256PlusPlus::seed_from_u64(seed);
     let embs: Vec<Embedding> = emb_names.iter().map(|s| embedding(s)).collect();
@@ -156,6 +187,32 @@ pub fn direct_long(prop: &str, seed: u64, max_n: usize, types: Vec<String>, emb_
             }
         }
         return;
+    }
+    // ---------------- C02 / C17: two near-constant blocks merged exactly at the block boundary
+    // (chunk means one lattice step apart, no scatter inside a chunk: under a one-ulp embedding the
+    // rounded merged mean can land outside [mean_a, mean_b])
+    if merged {
+        for &(va, vb) in &[(-1i64, 0i64), (0, -1), (2, 3), (3, 2), (-3, 3)] {
+            for ka in 1..=12usize {
+                for kb in 1..=12usize {
+                    let mut data = vec![va; ka];
+                    data.extend(vec![vb; kb]);
+                    let spec = SlotSpec::from_data(data, 4);
+                    let cx = Ctx::new(&spec);
+                    let label = json!({"two_blocks": [[va, ka], [vb, kb]], "merged_at_boundary": true});
+                    rep.behaviours += 1;
+                    rep.nontrivial.insert(hash_str(&label.to_string()));
+                    let want = Want { prop: prop.into(), types: types.clone(), embeddings: vec![] };
+                    for e in &embs {
+                        two_blocks::<average::Mean>(&spec, &cx, ka, e, &want, rep, &label);
+                        two_blocks::<average::Variance>(&spec, &cx, ka, e, &want, rep, &label);
+                        two_blocks::<average::Skewness>(&spec, &cx, ka, e, &want, rep, &label);
+                        two_blocks::<average::Kurtosis>(&spec, &cx, ka, e, &want, rep, &label);
+                        two_blocks::<average::Moments4>(&spec, &cx, ka, e, &want, rep, &label);
+                    }
+                }
+            }
+        }
     }
     for &n in &ns {
         for (shape, counts) in shapes(n, &mut rng) {
